@@ -381,6 +381,9 @@ def run_impl(case):
     other.update(K=max(1, (case["K"] + 1) % 4), max=2, tol=1e-2, adapt=not case["adapt"],
                  X=[row[::-1] for row in case["X"][::-1]], script=None)
     est_h, fd_h, _, _, _, _ = _fit_once(other, True, False)
+    with np.errstate(all="ignore"):  # use the first fit (fills any lazily computed state)
+        est_h.inverse_transform(np.asarray(est_h.transform(fd_h, method="FCPTPA")))
+        est_h.transform(fd_h, method="NumInt")
     est_h.n_components, est_h.normalize = case["K"], False
     est_h2, _, _, calls_h, _, _ = _fit_once(case, False, False, est=est_h)
     S4, E4 = np.asarray(est_h2.transform(fd, method="FCPTPA")), np.asarray(est_h2.eigenfunctions.values)
@@ -388,6 +391,7 @@ def run_impl(case):
         len(calls_h) == len(calls) and np.array_equal(S, S4, equal_nan=True) and np.array_equal(E, E4, equal_nan=True)
         and np.array_equal(est.eigenvalues, est_h2.eigenvalues, equal_nan=True)
         and np.array_equal(np.asarray(est_h2.transform(fd, method="NumInt")), np.asarray(out["numint"]), equal_nan=True)
+        and np.array_equal(np.asarray(est_h2.inverse_transform(S4).values), rec, equal_nan=True)
     )
     # --- ties between a recorded ratio and a tolerance level
     tie = False
